@@ -64,6 +64,17 @@ def sites(tree: ast.AST) -> List[Tuple[str, Any]]:
             pass
         if isinstance(node, ast.UnaryOp) and isinstance(node.op, ast.Not):
             out.append(("drop-not", idx))
+        if isinstance(node, (ast.FunctionDef, ast.AsyncFunctionDef, ast.If, ast.For, ast.While, ast.Try, ast.With, ast.AsyncWith, ast.ExceptHandler)):
+            for field in ("body", "orelse", "finalbody"):
+                lst = getattr(node, field, None)
+                if isinstance(lst, list):
+                    for j in range(len(lst) - 1):
+                        a, b = lst[j], lst[j + 1]
+                        if is_docstring(a) or is_log_call(a) or is_log_call(b):
+                            continue
+                        if isinstance(b, (ast.Return, ast.Raise, ast.Continue, ast.Break)) or isinstance(a, (ast.Return, ast.Raise)):
+                            continue
+                        out.append((f"swap-statements:{field}:{j}", idx))
     return out
 
 
@@ -89,6 +100,10 @@ def apply(tree: ast.AST, kind: str, idx: int) -> bool:
             node.op = ast.Sub() if isinstance(node.op, ast.Add) else ast.Add()  # type: ignore[attr-defined]
         elif kind == "drop-not":
             return replace_expr(tree, node, node.operand)  # type: ignore[attr-defined]
+        elif kind.startswith("swap-statements:"):
+            _, field, j = kind.split(":")
+            lst = getattr(node, field)
+            lst[int(j)], lst[int(j) + 1] = lst[int(j) + 1], lst[int(j)]
         return True
     return False
 
@@ -124,6 +139,10 @@ def describe(src: str, kind: str, idx: int) -> str:
     for i, node in enumerate(ast.walk(tree)):
         if i == idx:
             line = getattr(node, "lineno", 0)
+            if kind.startswith("swap-statements:"):
+                _, field, j = kind.split(":")
+                st = getattr(node, field)[int(j)]
+                line = st.lineno
             text = src.splitlines()[line - 1].strip() if line else ""
             return f"{kind} @ line {line}: {text[:100]}"
     return kind
